@@ -1,4 +1,5 @@
 import WfModel.Drv.RangeSet
+import WfModel.Drv.TyEnc
 import WfModel.Drv.Core
 /-!
 Line-protocol driver: one request per line on stdin, one answer per line on stdout.
@@ -8,7 +9,7 @@ open WfModel
 
 /-- stateless handlers (one self-contained request per line) -/
 def handlers : List (List String → Option String) :=
-  [ Drv.RangeSet.handle ]
+  [ Drv.RangeSet.handle, Drv.TyEnc.handle ]
 
 def dispatch (st : Drv.Core.St) (ws : List String) : Drv.Core.St × String :=
   match Drv.Core.step st ws with
